@@ -88,15 +88,27 @@ def build_history(rng: random.Random):
         # two prefixes that name different namespaces but the same files (A.B / A_B)
         cfgs.append(dict(enc, prefix=['QZTwin', 'QZNs']))
         cfgs.append(dict(enc, prefix=['QZTwin_QZNs']))
+        named_injected = None
+        if info['injected'] and not enc.get('multiclient'):
+            # a configuration that names an injected port among its explicit requires names
+            # (whatever the library makes of it: the configuration stays what it was)
+            named_injected = len(cfgs)
+            cfgs.append(dict(enc, requires={'sts': sorted(info['requires'] + info['injected']),
+                                            'mts': 'NONE'}))
+            cfgs.append(dict(enc, requires={'sts': sorted(info['injected']), 'mts': 'REMAINING'}))
         # sizes beyond the usual: two different long model file names (97+ characters), long
         # prefixes that differ in their last identifier only, long one-line texts
         for _k in range(2):
             big = dict(enc)
             cfggen.enlarge(rng, big)
             cfgs.append(big)
-        models.append({'doc': M.to_json(gen.model), 'cfgs': cfgs})
+        models.append({'doc': M.to_json(gen.model), 'cfgs': cfgs, 'named_injected': named_injected})
     steps = []
     for m, model in enumerate(models):
+        if model['named_injected'] is not None:
+            for k in (0, 1, 0):
+                steps.append({'model': m, 'cfg': model['named_injected'] + k, 'reuse_builder': True,
+                              'reuse_cfg_object': k == 0, 'edit_cfg_object': False})
         # both long-named configurations of every model are built, in this order
         steps.append({'model': m, 'cfg': len(model['cfgs']) - 2, 'reuse_builder': bool(m % 2),
                       'reuse_cfg_object': False, 'edit_cfg_object': False})
